@@ -488,7 +488,7 @@ def cases(tier):
     add("case_mem2_scipy", "mem2_scipy_N4", N=4, opts=dict(weight=40))
     add("case_mem2_scipy", "mem2_scipy_N4_nan", N=4, nf=2, nan_at=0, opts=dict(weight=40))
     if not q:
-        add("case_mem2_scipy", "mem2_scipy_N6_nf3", N=6, nf=3, opts=dict(weight=100))
+        add("case_mem2_scipy", "mem2_scipy_N6_nf1", N=6, nf=1, opts=dict(weight=100))   # nf=3 on 6 directions: > 1800 s
     add("case_mem_pole", "mem_pole_N4", N=4, opts=dict(weight=50))
     for shape in ((3,), (2, 3), (3, 1, 2)):
         for method in ("mem", "mem2"):
